@@ -9,9 +9,12 @@ import (
 	"encoding/hex"
 	"fmt"
 	"os"
+	"os/exec"
 	"path/filepath"
+	"runtime"
 	"sort"
 	"strings"
+	"syscall"
 	"testing"
 
 	"github.com/gethiox/HIDI/internal/pkg/logger"
@@ -79,6 +82,112 @@ func (r *hrunner) hidiraw(data []byte) string {
 	return res + " ;;; " + dec
 }
 
+// materialise writes the pending tree into a fresh working directory and returns it
+func (r *hrunner) materialise() string {
+	wd := filepath.Join(r.dir, "wd")
+	os.RemoveAll(wd)
+	os.MkdirAll(wd, 0o777)
+	if !r.none {
+		var paths []string
+		for p := range r.files {
+			paths = append(paths, p)
+		}
+		sort.Strings(paths)
+		os.MkdirAll(filepath.Join(wd, "hidi-config"), 0o777)
+		for _, p := range paths {
+			full := filepath.Join(wd, p)
+			if r.files[p] == nil {
+				os.MkdirAll(full, 0o777)
+			} else {
+				os.MkdirAll(filepath.Dir(full), 0o777)
+				os.WriteFile(full, r.files[p], 0o666)
+			}
+		}
+	}
+	return wd
+}
+
+func (r *hrunner) crashrun(mode string, k int) string {
+	wd := r.materialise()
+	self, err := os.Executable()
+	if err != nil {
+		return "noexec"
+	}
+	args := []string{"-test.run", "^TestVerifUpkeepChild$", "-test.v"}
+	env := append(os.Environ(), "VERIF_CHILD=1", "GOMAXPROCS=1")
+	var cmd *exec.Cmd
+	stout := filepath.Join(r.dir, "strace.out")
+	os.Remove(stout)
+	if mode == "fsize" {
+		env = append(env, fmt.Sprintf("VERIF_CHILD_FSIZE=%d", k))
+		cmd = exec.Command(self, args...)
+	} else {
+		sargs := []string{"-f", "-o", stout, "-e", "trace=mkdir,mkdirat,openat,write",
+			"-e", fmt.Sprintf("inject=mkdir,mkdirat,openat,write:error=ENOSPC:when=%d", k), self}
+		cmd = exec.Command("strace", append(sargs, args...)...)
+	}
+	cmd.Dir = wd
+	cmd.Env = env
+	out, _ := cmd.CombinedOutput()
+	status := "noresult"
+	for _, l := range strings.Split(string(out), "\n") {
+		if strings.HasPrefix(l, "CHILD-RESULT ") {
+			status = strings.TrimPrefix(l, "CHILD-RESULT ")
+		}
+	}
+	if cmd.ProcessState != nil {
+		if ws, ok := cmd.ProcessState.Sys().(syscall.WaitStatus); ok && ws.Signaled() {
+			status = "killed"
+		}
+	}
+	inj := "noinj"
+	if b, err := os.ReadFile(stout); err == nil {
+		// only injections into calls that touch the configuration tree count
+		for _, l := range strings.Split(string(b), "\n") {
+			if strings.Contains(l, "(INJECTED)") {
+				if strings.Contains(l, "hidi-config") || strings.Contains(l, "write(") {
+					inj = "inj"
+				} else {
+					inj = "inj-elsewhere"
+				}
+			}
+		}
+	}
+	old, _ := os.Getwd()
+	os.Chdir(wd)
+	tree := dumpTree("hidi-config")
+	os.Chdir(old)
+	return status + " " + inj + " " + tree
+}
+
+// TestVerifUpkeepChild runs updateHIDIConfiguration once in the current directory (child of crashrun)
+func TestVerifUpkeepChild(t *testing.T) {
+	if os.Getenv("VERIF_CHILD") != "1" {
+		t.Skip("not a crashrun child")
+	}
+	runtime.LockOSThread()
+	if v := os.Getenv("VERIF_CHILD_FSIZE"); v != "" {
+		var k uint64
+		fmt.Sscanf(v, "%d", &k)
+		if err := syscall.Setrlimit(syscall.RLIMIT_FSIZE, &syscall.Rlimit{Cur: k, Max: k}); err != nil {
+			fmt.Println("CHILD-RESULT rlimit-failed")
+			return
+		}
+	}
+	res := "ok"
+	func() {
+		defer func() {
+			if e := recover(); e != nil {
+				res = "panic"
+			}
+		}()
+		if err := updateHIDIConfiguration(); err != nil {
+			res = "err"
+		}
+	}()
+	fmt.Println("CHILD-RESULT " + res)
+}
+
 // dumpTree lists the tree under hidi-config in the working directory: sorted "path:hex" / "path/" lines
 func dumpTree(root string) string {
 	var items []string
@@ -140,26 +249,7 @@ func (r *hrunner) line(toks []string) (out string, ok bool) {
 		return strings.Join(items, " "), true
 	case "upkeep":
 		// materialise the tree in a fresh working directory, run the real function there
-		wd := filepath.Join(r.dir, "wd")
-		os.RemoveAll(wd)
-		os.MkdirAll(wd, 0o777)
-		if !r.none {
-			var paths []string
-			for p := range r.files {
-				paths = append(paths, p)
-			}
-			sort.Strings(paths)
-			os.MkdirAll(filepath.Join(wd, "hidi-config"), 0o777)
-			for _, p := range paths {
-				full := filepath.Join(wd, p)
-				if r.files[p] == nil {
-					os.MkdirAll(full, 0o777)
-				} else {
-					os.MkdirAll(filepath.Dir(full), 0o777)
-					os.WriteFile(full, r.files[p], 0o666)
-				}
-			}
-		}
+		wd := r.materialise()
 		old, _ := os.Getwd()
 		os.Chdir(wd)
 		res := "ok"
@@ -183,6 +273,13 @@ func (r *hrunner) line(toks []string) (out string, ok bool) {
 		tree := dumpTree("hidi-config")
 		os.Chdir(old)
 		return res + " " + tree, true
+	case "crashrun":
+		// crashrun fsize <k>  : the real function in a child process with RLIMIT_FSIZE = k (the kernel kills the
+		//                       child with SIGXFSZ in the first write that would pass k bytes; k bytes are written)
+		// crashrun strace <k> : the child under strace with ENOSPC injected into its k-th mkdir/openat/write
+		var k int
+		fmt.Sscanf(toks[2], "%d", &k)
+		return r.crashrun(toks[1], k), true
 	}
 	return "bad-op", true
 }
